@@ -12,7 +12,7 @@ FUNCTIONS = H.FUNCTIONS
 ASSUMPTIONS = [
     "test equation du/dt = a*u + c on a one-cell grid (autonomous, so the state term does not depend on how the run is segmented); a = 0 in dimension-tracked runs, a = 1/2 otherwise",
     "symbolic-dt runs: 1/64 <= dt <= 64; multi-tracker runs pin the time unit dt = 1 while *tracking physical dimensions*: every executed operation is checked to be dimensionally consistent, which makes all observables homogeneous in (dt, t_start, T, intervals) and justifies the normalisation (obligation 'time-scale-homogeneity')",
-    "tracker intervals dt/4 <= D <= 8*dt (constant), fixed lists inside [-dt, 8*dt], logarithmic factor in [1, 3]; |t_start| <= 8*dt",
+    "tracker intervals dt/4 <= D <= 8*dt (constant), fixed lists inside [-dt, 8*dt], logarithmic factor in [1, 3]; |t_start| <= 8*dt; 'arbitrary' schedules: a non-deterministic interrupt stub whose answers are fresh symbols constrained only by the interrupt contract of C09 (>= query, later than the previous answer by >= dt/4) - this covers geometric and user-defined schedules as far as the controller is concerned",
     "time equalities are asserted up to 1e-9*dt*K (exact in real arithmetic); float round-off of t_start + n*dt is outside the claim",
 ]
 STUBS = ["float() identity on symbolic reals in pde.solvers.*, pde.trackers.*, pde.backends.numba._solvers", "nb.typeof -> None (signatures are ignored with NUMBA_DISABLE_JIT=1)"]
@@ -44,6 +44,8 @@ def cases(tier, seed):
         out.append(_case(f"numpy:2const:dt=1:{rng}:K={3 if q else 4}", backend="numpy", K=3 if q else 4, range=rng, dt=1, a=0.5, trackers=c2))
         out.append(_case(f"numpy:fixed2+const:dt=1:{rng}:K=3", backend="numpy", K=3, range=rng, dt=1, a=0.5, trackers=[{"kind": "fixed", "L": 2}, {"kind": "const", "min_ratio": 0.5}]))
         out.append(_case(f"numpy:log:dt=1:{rng}:K=4", backend="numpy", K=4, range=rng, dt=1, a=0.5, trackers=[{"kind": "log", "factor": "sym"}]))
+        out.append(_case(f"numpy:arbitrary-schedule:dt=1:{rng}:K=4", backend="numpy", K=4, range=rng, dt=1, a=0.5, trackers=[{"kind": "arbitrary"}]))
+        out.append(_case(f"numba:arbitrary-schedule+const:dt=1:{rng}:K=2", backend="numba", K=2, range=rng, dt=1, a=0.5, trackers=[{"kind": "arbitrary", "min_gap": 0.5}, {"kind": "const", "min_ratio": 0.5}]))
         out.append(_case(f"numpy:rk:1const:dt=1:{rng}:K=3", backend="numpy", solver="runge-kutta", K=3, range=rng, dt=1, a=0.5, trackers=c1))
         out.append(_case(f"numpy:ab:1const:dt=1:{rng}:K=4", backend="numpy", solver="adams-bashforth", K=4, range=rng, dt=1, a=0.5, trackers=c1))
         out.append(_case(f"numba:ab:1const:dt=1:{rng}:K=3", backend="numba", solver="adams-bashforth", K=3, range=rng, dt=1, a=0.5, trackers=c1))
